@@ -15,7 +15,9 @@ use srtla_core::priority::CriticalWindow;
 use srtla_core::registration::SrtlaRegistrationManager;
 use srtla_core::utils::verif_clock;
 use srtla_protocol::*;
-use srtla_send::net::{BatchUdpSocket, SourceIpBinder, verif_fail};
+use std::sync::atomic::{AtomicU32, Ordering};
+
+use srtla_send::net::{BatchUdpSocket, CallbackBinder, UplinkBinder, verif_fail};
 use srtla_send::sender::verif_hooks::*;
 use verif_harness::util::*;
 use verif_harness::{Component, Mon, Rng, Tier};
@@ -40,6 +42,30 @@ struct World {
     client: StdUdp,
     client_addr: SocketAddr,
     fail_pending: Vec<u64>,
+    /// conn ids whose next socket re-creation fails (op `failbind`), newest first like the model's list
+    bind_fail: Vec<u64>,
+    /// per conn id: how many more `bind` calls the harness-owned binder of that link refuses
+    bind_refusals: BTreeMap<u64, Arc<AtomicU32>>,
+    /// op `deadsock`: per conn id the unconnected socket the harness swapped in (every send on it fails)
+    /// and the working socket it replaced
+    dead: BTreeMap<u64, (Arc<BatchUdpSocket>, Arc<BatchUdpSocket>)>,
+}
+
+/// The harness owns the `UplinkBinder` it hands to the real code (one per link, stored in that link's
+/// `ConnIo`): it refuses while the link's refusal counter is positive (consuming one refusal per call,
+/// so `reconnect_uplink` fails before it replaces the socket), otherwise it leaves the fresh socket
+/// unbound — `connect` to the loopback receiver then picks 127.0.0.1 and an ephemeral port, which is
+/// what `SourceIpBinder` does for the link's source address 127.0.0.1.
+fn refusing_binder(refusals: Arc<AtomicU32>) -> Arc<dyn UplinkBinder> {
+    Arc::new(CallbackBinder(move |_fd: std::os::fd::RawFd, _ip: IpAddr| -> std::io::Result<()> {
+        let left = refusals.load(Ordering::SeqCst);
+        if left > 0 {
+            refusals.store(left - 1, Ordering::SeqCst);
+            Err(std::io::Error::other("verif: interface gone"))
+        } else {
+            Ok(())
+        }
+    }))
 }
 
 /// Ghost bookkeeping for the monitors (independent of the model).
@@ -65,6 +91,9 @@ struct SysComp {
     rt: tokio::runtime::Runtime,
     w: Option<World>,
     g: Ghost,
+    /// the rest of this case uses a fault the model does not have (op `deadsock`): the real code is still
+    /// run and monitored, the printed line is the constant `unmodelled` (the model driver prints the same)
+    unmodelled: bool,
 }
 
 fn show_phase(p: &LinkPhase) -> String {
@@ -206,11 +235,12 @@ impl World {
 
     fn show(&self) -> String {
         format!(
-            "sys[last={} ck={} afa={} fail={}] {} | {}",
+            "sys[last={} ck={} afa={} fail={} fb={}] {} | {}",
             show_opt(self.last_selected),
             show_bool(self.last_client.is_some()),
             show_opt(self.all_failed_at),
             show_list(&self.fail_pending),
+            show_list(&self.bind_fail),
             self.show_reg(),
             self.links.iter().map(show_link).collect::<Vec<_>>().join(" | ")
         )
@@ -238,6 +268,13 @@ impl World {
             None => true,
         });
         verif_fail::clear();
+    }
+
+    /// A bind-failure injection stays pending (keyed by conn id) until a `reconnect_uplink` of that
+    /// link called the binder and was refused.
+    fn collect_bind_failures(&mut self) {
+        let ctr = &self.bind_refusals;
+        self.bind_fail.retain(|id| ctr.get(id).is_some_and(|c| c.load(Ordering::SeqCst) > 0));
     }
 
     /// Everything that appeared on the wire (per conn id, in conn order then arrival order) and at the client.
@@ -271,11 +308,46 @@ fn is_registration(pt: u16) -> bool {
 }
 
 impl SysComp {
+    /// `deadsock <cid> 1`: swap the link's uplink socket for an unconnected one (every send fails with
+    /// EDESTADDRREQ: dead interface); `deadsock <cid> 0`: put the working socket back.
+    fn dead_socket(&mut self, cid: &str, on: &str) {
+        let _guard = self.rt.enter();
+        let Some(w) = self.w.as_mut() else { return };
+        let Ok(cid) = cid.parse::<u64>() else { return };
+        let Some(io) = w.io.get_mut(&cid) else { return };
+        if on == "1" {
+            if w.dead.get(&cid).is_some_and(|(d, _)| Arc::ptr_eq(d, &io.socket)) {
+                return;
+            }
+            let Ok(sock) = socket2::Socket::new(socket2::Domain::IPV4, socket2::Type::DGRAM, Some(socket2::Protocol::UDP)) else { return };
+            if sock.set_nonblocking(true).is_err() {
+                return;
+            }
+            let Ok(b) = BatchUdpSocket::new(sock) else { return };
+            let d = Arc::new(b);
+            let old = std::mem::replace(&mut io.socket, d.clone());
+            w.dead.insert(cid, (d, old));
+        } else if let Some((d, old)) = w.dead.remove(&cid) {
+            if Arc::ptr_eq(&d, &io.socket) {
+                io.socket = old;
+            }
+        }
+    }
+
+    /// Is the link's current socket the dead one swapped in by `deadsock` (a successful re-creation ends that)?
+    fn is_dead(w: &World, cid: u64) -> bool {
+        match (w.dead.get(&cid), w.io.get(&cid)) {
+            (Some((d, _)), Some(io)) => Arc::ptr_eq(d, &io.socket),
+            _ => false,
+        }
+    }
+
     fn new() -> Self {
         SysComp {
             rt: tokio::runtime::Builder::new_current_thread().enable_all().build().unwrap(),
             w: None,
             g: Ghost::default(),
+            unmodelled: false,
         }
     }
 
@@ -284,6 +356,7 @@ impl SysComp {
         let mut links = Vec::new();
         let mut io: ConnIoMap = HashMap::new();
         let mut receivers = BTreeMap::new();
+        let mut bind_refusals = BTreeMap::new();
         for i in 0..n {
             let id = (i + 1) as u64;
             let recv = StdUdp::bind("127.0.0.1:0").unwrap();
@@ -296,7 +369,9 @@ impl SysComp {
             sock.connect(&remote.into()).unwrap();
             sock.set_nonblocking(true).unwrap();
             let socket = Arc::new(BatchUdpSocket::new(sock).unwrap());
-            io.insert(id, ConnIo { socket, binder: Arc::new(SourceIpBinder), remote });
+            let refusals = Arc::new(AtomicU32::new(0));
+            io.insert(id, ConnIo { socket, binder: refusing_binder(refusals.clone()), remote });
+            bind_refusals.insert(id, refusals);
             receivers.insert(id, recv);
             links.push(SrtlaConnection::new_registering(id, format!("l{i}"), IpAddr::V4(Ipv4Addr::new(127, 0, 0, 1)), now));
         }
@@ -331,6 +406,9 @@ impl SysComp {
             client,
             client_addr,
             fail_pending: Vec::new(),
+            bind_fail: Vec::new(),
+            bind_refusals,
+            dead: BTreeMap::new(),
         });
         self.g = Ghost::default();
     }
@@ -377,6 +455,7 @@ struct Pre {
     waiting: bool,
     lrm: u64,
     last_attempt: u64,
+    fail_count: u32,
     gated: bool,
     score_ref: i64,
     lka: Option<u64>,
@@ -400,6 +479,7 @@ fn pre_of(c: &SrtlaConnection, now: u64) -> Pre {
         waiting: c.rtt.waiting_for_keepalive_response,
         lrm: c.rtt.last_rtt_measurement_ms,
         last_attempt: c.reconnection.last_reconnect_attempt_ms,
+        fail_count: c.reconnection.reconnect_failure_count,
         lka: c.verif_last_keepalive_sent(),
         stamps: (c.weak, c.loss_degraded, c.cc_backing_off, c.cc_target_bps),
         gated: c.is_stall_gated(),
@@ -422,7 +502,7 @@ impl Component for SysComp {
          zero/truncated/with long trailers, unknown types, short datagrams, relayed datagrams of 63..1500 bytes, one \
          type-sweep sample per case over the SRT control page + neighbours of the SRTLA codes, odd-sized registration \
          replies, REG_ERR / REG_NGP mid-stream), uplink-channel backlogs up to 100 datagrams, link silence past the \
-         timeout, send-failure injection, config changes (mode, quality, guard, thresholds, timeout), critical windows, \
+         timeout, send-failure injection, failed socket re-creation on reconnect (binder refusals, 1..7 in a row: back-off table up to the 120 s cap), config changes (mode, quality, guard, thresholds, timeout), critical windows, \
          weak / loss-degraded / CC-target stamps, injected window vectors on the boundaries of every window rule. \
          Thorough tier: cases up to 450 steps. Non-trivial: registration completed and at least one datagram was put \
          on the wire."
@@ -442,12 +522,19 @@ impl Component for SysComp {
         verif_fail::clear();
         verif_clock::set(None);
         self.g = Ghost::default();
+        self.unmodelled = false;
     }
 
     fn exec(&mut self, toks: &[&str], mon: &mut Mon) -> String {
+        if let ["deadsock", cid, on] = toks {
+            self.unmodelled = true;
+            mon.count("unmodelled-case:deadsock");
+            self.dead_socket(cid, on);
+            return "unmodelled".into();
+        }
         let out = self.exec_op(toks, mon);
         self.mon_c02(mon, toks);
-        out
+        if self.unmodelled { "unmodelled".into() } else { out }
     }
 
     fn end_case(&mut self, mon: &mut Mon) {
@@ -537,6 +624,7 @@ impl SysComp {
             Cfg(ConfigSnapshot),
             Crit(u64),
             Fail(u64),
+            FailBind(u64),
             SetLink(usize, Vec<(String, String)>),
             Trk(u32, u64),
         }
@@ -556,6 +644,7 @@ impl SysComp {
             ["cfg", rest @ ..] => parse_cfg(rest).map(Op::Cfg),
             ["crit", d] => d.parse().ok().map(Op::Crit),
             ["failnext", cid] => cid.parse().ok().map(Op::Fail),
+            ["failbind", cid] => cid.parse().ok().map(Op::FailBind),
             ["setlink", i, rest @ ..] => i.parse().ok().and_then(|i| {
                 let mut v = Vec::new();
                 for t in rest {
@@ -587,6 +676,19 @@ impl SysComp {
                     return "bad-op".into();
                 }
                 w.fail_pending.insert(0, *cid);
+                return format!("wire=[] client=[] err=0 | {}", w.show());
+            }
+            Op::FailBind(cid) => {
+                // the binder of that link refuses once: its next `reconnect_uplink` fails
+                let w = self.w.as_mut().unwrap();
+                if w.bind_fail.contains(cid) || !w.links.iter().any(|c| c.conn_id == *cid) {
+                    return "bad-op".into();
+                }
+                w.bind_fail.insert(0, *cid);
+                if let Some(c) = w.bind_refusals.get(cid) {
+                    c.store(1, Ordering::SeqCst);
+                }
+                mon.count("failbind-injected");
                 return format!("wire=[] client=[] err=0 | {}", w.show());
             }
             Op::SetLink(i, kvs) => {
@@ -634,6 +736,7 @@ impl SysComp {
         let pre: Vec<Pre> = self.w.as_ref().unwrap().links.iter().map(|c| pre_of(c, now)).collect();
         let pre_ids: Vec<u64> = self.w.as_ref().unwrap().links.iter().map(|c| c.conn_id).collect();
         let pre_fail: Vec<u64> = self.w.as_ref().unwrap().fail_pending.clone();
+        let pre_bind_fail: Vec<u64> = self.w.as_ref().unwrap().bind_fail.clone();
         let pre_has_connected = self.w.as_ref().unwrap().reg.verif_state().has_connected;
         let pre_client_known = self.w.as_ref().unwrap().last_client.is_some();
         let cfg = self.w.as_ref().unwrap().cfg;
@@ -733,13 +836,14 @@ impl SysComp {
                 _ => {}
             }
             w.collect_failures(&armed);
+            w.collect_bind_failures();
         }
         verif_clock::set(None);
         let (wire, client) = self.w.as_mut().unwrap().capture();
         let wire: Vec<(u64, Vec<u8>)> = wire.into_iter().map(|(id, d)| (id, self.canon_wire(&seed_probe, &d))).collect();
 
         // ---- monitors
-        self.monitors(&parsed_kind(&parsed), now, &pre, &pre_ids, &pre_fail, pre_has_connected, pre_client_known, &cfg, &wire, &client, mon, &op);
+        self.monitors(&parsed_kind(&parsed), now, &pre, &pre_ids, &pre_fail, &pre_bind_fail, pre_has_connected, pre_client_known, &cfg, &wire, &client, mon, &op);
 
         let w = self.w.as_ref().unwrap();
         let ws: Vec<String> = wire.iter().map(|(id, d)| format!("{id}:{}", to_hex(d))).collect();
@@ -776,6 +880,7 @@ impl SysComp {
         pre: &[Pre],
         pre_ids: &[u64],
         pre_fail: &[u64],
+        pre_bind_fail: &[u64],
         pre_has_connected: bool,
         pre_client_known: bool,
         cfg: &ConfigSnapshot,
@@ -825,6 +930,7 @@ impl SysComp {
         let g = &mut self.g;
         let n = w.links.len();
         let consumed_fail: Vec<u64> = pre_fail.iter().copied().filter(|id| !w.fail_pending.contains(id)).collect();
+        let consumed_bind: Vec<u64> = pre_bind_fail.iter().copied().filter(|id| !w.bind_fail.contains(id)).collect();
 
         // ---------- the classifier / link-CC verdicts stamped on a link (weak, loss_degraded, cc_backing_off,
         // cc_target_bps) are written by the housekeeping arm's stamping loop only (`setlink` here): no
@@ -956,9 +1062,41 @@ impl SysComp {
                     }
                 }
                 g.last_attempt.insert(c.conn_id, (now, pre[i].established != 0));
+                // the code's own back-off table, read off the PRE-state: 5/10/20/40/80 s for 0..4 recorded
+                // failures, 120 s from 5 on (independent of the model)
+                if pre[i].established != 0 && pre[i].last_attempt != 0 {
+                    let table = [5_000u64, 10_000, 20_000, 40_000, 80_000, 120_000];
+                    let need = table[(pre[i].fail_count as usize).min(5)];
+                    if now.saturating_sub(pre[i].last_attempt) < need {
+                        mon.fail("C08", "backoff-not-honoured", format!("link {} retried {} ms after its previous attempt with {} recorded failures (back-off {need})", c.conn_id, now - pre[i].last_attempt, pre[i].fail_count));
+                    }
+                    if pre[i].fail_count > 0 {
+                        mon.count(match pre[i].fail_count {
+                            1 => "retry-after-backoff-10s",
+                            2 => "retry-after-backoff-20s",
+                            3 => "retry-after-backoff-40s",
+                            4 => "retry-after-backoff-80s",
+                            _ => "retry-after-backoff-120s",
+                        });
+                    }
+                }
+                // a failed socket re-creation (binder refused): the link is marked for recovery — down,
+                // clean accounting, failure counter NOT reset (one more than before if established)
+                if consumed_bind.contains(&c.conn_id) {
+                    mon.count("reconnect-bind-failed");
+                    let want_fc = if pre[i].established != 0 { pre[i].fail_count.saturating_add(1) } else { pre[i].fail_count };
+                    if c.connected || !c.verif_packet_log().is_empty() || c.batch_sender.queued_count() != 0 || c.reconnection.reconnect_failure_count != want_fc {
+                        mon.fail("C08", "failed-reconnect-state", format!("link {} after a failed socket re-creation: connected={} log={} queued={} failure counter {} (expected {want_fc})", c.conn_id, c.connected, c.verif_packet_log().len(), c.batch_sender.queued_count(), c.reconnection.reconnect_failure_count));
+                    }
+                } else if pre[i].established != 0 && c.reconnection.reconnect_failure_count != 0 {
+                    mon.fail("C08", "failcount-after-reconnect", format!("link {} re-created its socket but keeps failure counter {}", c.conn_id, c.reconnection.reconnect_failure_count));
+                }
                 if c.window != 20000 || c.in_flight_packets != 0 || !matches!(c.phase, LinkPhase::Registering) {
                     mon.fail("C08", "unclean-teardown", format!("link {} after reconnect attempt: window {} in_flight {} phase {}", c.conn_id, c.window, c.in_flight_packets, show_phase(&c.phase)));
                 }
+            }
+            if consumed_bind.contains(&c.conn_id) && !(attempt && kind == Kind::Hk) {
+                mon.fail("C08", "bind-failure-without-attempt", format!("link {}: an injected binder refusal was consumed by `{}` without a reconnect attempt", c.conn_id, &op[..op.len().min(60)]));
             }
             // "connected again within 30 s once the path delivers and the receiver answers" needs a
             // registration attempt at least every 30 s while the link is down and past its grace
@@ -970,11 +1108,26 @@ impl SysComp {
             if c.connected {
                 g.torn_at.remove(&c.conn_id);
             }
+            // The 30 s bound is for a down link whose failure counter is 0 — what every tear-down cause in
+            // the property's fault classes (silence, send error, REG_ERR / REG_NGP) leaves. A counter k > 0
+            // exists only after failed socket RE-CREATIONS (binder error, op `failbind`), which are outside
+            // those classes and are what makes the property's "back-off never exceeding 120 s" reachable:
+            // there the bound is the back-off table itself — the attempt is due at the first tick at or
+            // after last_attempt + min(5000 * 2^min(k,5), 120000) (not earlier: `backoff-not-honoured`).
             if kind == Kind::Hk && !pre[i].connected && !c.connected && !attempt {
-                let la = pre[i].last_attempt.max(g.torn_at.get(&c.conn_id).copied().unwrap_or(0));
                 let past_grace = pre[i].established != 0 || now > w.links[i].reconnection.startup_grace_deadline_ms;
-                if la != 0 && now.saturating_sub(la) >= 30_000 && past_grace {
-                    mon.fail("C08", "retry-gap-exceeds-30s", format!("link {} is down, its tear-down / last registration attempt was {} ms ago and this tick makes none (timed_out verdict: {}): a repaired path cannot be connected again within 30 s", c.conn_id, now - la, pre[i].timed_out));
+                if pre[i].fail_count == 0 {
+                    let la = pre[i].last_attempt.max(g.torn_at.get(&c.conn_id).copied().unwrap_or(0));
+                    if la != 0 && now.saturating_sub(la) >= 30_000 && past_grace {
+                        mon.fail("C08", "retry-gap-exceeds-30s", format!("link {} is down, its tear-down / last registration attempt was {} ms ago and this tick makes none (timed_out verdict: {}): a repaired path cannot be connected again within 30 s", c.conn_id, now - la, pre[i].timed_out));
+                    }
+                } else {
+                    let table = [5_000u64, 10_000, 20_000, 40_000, 80_000, 120_000];
+                    let need = table[(pre[i].fail_count as usize).min(5)];
+                    mon.count("down-with-failure-counter-tick");
+                    if pre[i].last_attempt != 0 && now.saturating_sub(pre[i].last_attempt) >= need && past_grace {
+                        mon.fail("C08", "backoff-overshoot", format!("link {} is down with {} recorded re-creation failures, its last attempt was {} ms ago (back-off {need}) and this tick makes none", c.conn_id, pre[i].fail_count, now - pre[i].last_attempt));
+                    }
                 }
             }
             // retries forever: a timed-out link whose last attempt is >= 120 s old must retry now
@@ -1348,7 +1501,7 @@ impl SysComp {
                         if !lka.is_some_and(|t| now.saturating_sub(t) < 1000) {
                             mon.fail("C14", "keepalive-missing", format!("link {} connected and live at tick {now} but last keepalive is {lka:?}", c.conn_id));
                         }
-                        if lka == Some(now) && pre[i].lka != Some(now) && kas.is_empty() {
+                        if lka == Some(now) && pre[i].lka != Some(now) && kas.is_empty() && !Self::is_dead(w, c.conn_id) {
                             mon.fail("C14", "keepalive-not-on-wire", format!("link {} stamped a keepalive at {now} but none reached the wire", c.conn_id));
                         }
                     } else if !kas.is_empty() && pre[i].timed_out {
@@ -1459,6 +1612,11 @@ fn client_len_class(rng: &mut Rng) -> usize {
     }
 }
 
+/// Random bind-failure injections per link in the data phase of a case (the dedicated scenario
+/// below injects its own 1..3, in some cases 6..7, consecutive failures). Every failed socket
+/// re-creation of an established link doubles its reconnect back-off: 10 s, 20 s, 40 s, 80 s, 120 s.
+const BINDFAIL_BUDGET: u32 = 3;
+
 fn gen_case(rng: &mut Rng, tier: Tier, idx: usize) -> Vec<String> {
     // special scenarios reaching code the scripted-random histories rarely or never reach
     // (found by an LLVM coverage run of the real code under this harness, see DESIGN.md section 11)
@@ -1467,6 +1625,9 @@ fn gen_case(rng: &mut Rng, tier: Tier, idx: usize) -> Vec<String> {
     }
     if idx % 37 == 19 {
         return gen_never_connects(rng);
+    }
+    if idx % 41 == 23 {
+        return gen_dead_socket(rng);
     }
     let n = rng.range(1, 4) as usize;
     let seed = rng.below(1 << 30);
@@ -1612,6 +1773,63 @@ fn gen_case(rng: &mut Rng, tier: Tier, idx: usize) -> Vec<String> {
         }
         now += 10;
         ops.push(format!("uplink {now} {} {}", j + 1, hexs(&SRTLA_TYPE_REG3.to_be_bytes())));
+    }
+    // ---------------- failed socket re-creation (C08): a link is torn down (REG_ERR, or silence past the
+    // timeout) and the uplink binder refuses its next 1..3 — every third such case 6..7, so that the
+    // 120 s cap is reached — reconnect attempts (`reconnect_uplink` fails -> `mark_for_recovery`, failure
+    // counter kept: back-off 10 s, 20 s, 40 s, 80 s, 120 s, 120 s); the survivors keep answering
+    // keepalives; once a re-creation succeeds the receiver answers REG3
+    let mut bind_budget: Vec<u32> = vec![BINDFAIL_BUDGET; n];
+    if idx % 11 == 4 && n >= 2 && up.iter().all(|u| *u) {
+        let cto = *rng.pick(&[5000u64, 5000, 2000, 10000]);
+        ops.push(format!("cfg classic={} quality=1 stall=1 minif=32 ceil=3000 cto={cto}", rng.below(2)));
+        now += rng.below(20);
+        ops.push(format!("client {now} {}", hexs(&data_packet(78, false, 32, 8_100_000, rng))));
+        now += 15;
+        ops.push(format!("flush {now}"));
+        let j = rng.below(n as u64) as usize;
+        let by_silence = rng.chance(1, 3);
+        now += rng.below(200);
+        if by_silence {
+            // last heard now: the link times out `cto` later
+            ops.push(format!("uplink {now} {} {}", j + 1, hexs(&create_keepalive_packet(now.saturating_sub(30)).to_vec())));
+        } else {
+            ops.push(format!("uplink {now} {} {}", j + 1, hexs(&SRTLA_TYPE_REG_ERR.to_be_bytes())));
+        }
+        let down_from = if by_silence { now + cto } else { now };
+        let k = if idx % 33 == 4 { rng.range(6, 7) as u32 } else { rng.range(1, 3) as u32 };
+        let mut failures_left = k;
+        let mut fc: u32 = 0; // the failure counter the code holds (established link: +1 per attempt)
+        let mut last_attempt: u64 = 0;
+        let mut answered = false;
+        let late = rng.chance(1, 4);
+        let mut tick_no = 0;
+        while !answered && tick_no < 600 {
+            tick_no += 1;
+            now += if late { rng.range(1000, 1100) } else { 1000 };
+            let due = now >= down_from && (last_attempt == 0 || now - last_attempt >= (5000u64 << fc.min(5)).min(120_000));
+            if due && failures_left > 0 {
+                ops.push(format!("failbind {}", j + 1));
+            }
+            ops.push(format!("hk {now}"));
+            for l in 0..n {
+                if l != j && rng.chance(9, 10) {
+                    ops.push(format!("uplink {} {} {}", now + 5, l + 1, hexs(&create_keepalive_packet(now).to_vec())));
+                }
+            }
+            if due {
+                last_attempt = now;
+                if failures_left > 0 {
+                    failures_left -= 1;
+                    fc += 1;
+                } else {
+                    // the re-created socket carried REG2: the receiver answers
+                    ops.push(format!("uplink {} {} {}", now + rng.range(10, 400), j + 1, hexs(&SRTLA_TYPE_REG3.to_be_bytes())));
+                    answered = true;
+                }
+            }
+        }
+        now += 400;
     }
     // ---------------- data phase
     let steps = match tier {
@@ -1922,7 +2140,7 @@ fn gen_case(rng: &mut Rng, tier: Tier, idx: usize) -> Vec<String> {
             ops.push(format!("burst {now} {} {cnt} {}", j + 1, hexs(&b)));
         }
         let i = rng.below(n as u64) as usize;
-        let pick = if in_bh && rng.chance(3, 4) { rng.below(18) } else { rng.below(40) };
+        let pick = if in_bh && rng.chance(3, 4) { rng.below(18) } else { rng.below(41) };
         match pick {
             0..=17 => {
                 // client data burst
@@ -2112,6 +2330,13 @@ fn gen_case(rng: &mut Rng, tier: Tier, idx: usize) -> Vec<String> {
             36 => {
                 ops.push(format!("failnext {}", i + 1));
             }
+            40 => {
+                // the uplink binder of link i refuses its next socket re-creation
+                if bind_budget[i] > 0 {
+                    bind_budget[i] -= 1;
+                    ops.push(format!("failbind {}", i + 1));
+                }
+            }
             37 => ops.push(cfg_line(rng)),
             38 => {
                 ops.push(format!("crit {}", now + rng.below(400)));
@@ -2289,6 +2514,78 @@ fn gen_never_connects(rng: &mut Rng) -> Vec<String> {
         }
     }
     ops.push(format!("flush {}", now + 15));
+    ops
+}
+
+/// A dead interface (UNMODELLED fault, monitors only): one uplink's socket cannot send at all and its
+/// re-creation is refused too, so every registration re-send on it fails; the other uplinks are healthy
+/// and answer every keepalive. The healthy uplinks must keep their keepalive cadence and stay connected
+/// whatever happens on the dead one. No client traffic (keeps the data-path monitors out of it).
+fn gen_dead_socket(rng: &mut Rng) -> Vec<String> {
+    let n = rng.range(2, 4) as usize;
+    let seed = rng.below(1 << 30);
+    let mut now: u64 = 1_000_000 + rng.below(500_000);
+    let mut ops = vec![format!("init {n} {seed} {now}")];
+    ops.push(format!("cfg classic={} quality=1 stall=1 minif=32 ceil=3000 cto=5000", rng.below(2)));
+    let id = id_from_seed(seed, 0);
+    let mut group_id = id;
+    for b in group_id[128..].iter_mut() {
+        *b = b.wrapping_add(17);
+    }
+    let hexs = |b: &[u8]| to_hex(b);
+    // the dead uplink is not the last one: uplinks after it in the list are the ones at risk
+    let dead = rng.below(n as u64 - 1) as usize;
+    let never_registered = rng.chance(1, 2);
+    let first = if never_registered { n - 1 } else { rng.below(n as u64) as usize };
+    ops.push(format!("uplink {now} {} {}", first + 1, hexs(&SRTLA_TYPE_REG_NGP.to_be_bytes())));
+    now += 20;
+    let mut reg2 = SRTLA_TYPE_REG2.to_be_bytes().to_vec();
+    reg2.extend_from_slice(&group_id);
+    ops.push(format!("uplink {now} {} {}", first + 1, hexs(&reg2)));
+    now += 300;
+    ops.push(format!("hk {now}"));
+    for i in 0..n {
+        if never_registered && i == dead {
+            continue;
+        }
+        now += 10;
+        ops.push(format!("uplink {now} {} {}", i + 1, hexs(&SRTLA_TYPE_REG3.to_be_bytes())));
+    }
+    let mut tick = now + 700;
+    let start_dead = rng.range(1, 4);
+    let ticks = rng.range(14, 40);
+    for t in 0..ticks {
+        if t == start_dead {
+            ops.push(format!("deadsock {} 1", dead + 1));
+        }
+        if t >= start_dead {
+            // the binder refuses every re-creation of the dead uplink's socket (one refusal per attempt)
+            ops.push(format!("failbind {}", dead + 1));
+        }
+        ops.push(format!("hk {tick}"));
+        for i in 0..n {
+            if i != dead || t < start_dead {
+                if never_registered && i == dead {
+                    continue;
+                }
+                ops.push(format!("uplink {} {} {}", tick + 20, i + 1, hexs(&create_keepalive_packet(tick).to_vec())));
+            }
+        }
+        tick += *rng.pick(&[1000u64, 1000, 1000, 1001, 1400]);
+    }
+    if rng.chance(1, 2) {
+        // the interface comes back
+        ops.push(format!("deadsock {} 0", dead + 1));
+        for _ in 0..rng.range(6, 12) {
+            ops.push(format!("hk {tick}"));
+            for i in 0..n {
+                if i != dead {
+                    ops.push(format!("uplink {} {} {}", tick + 20, i + 1, hexs(&create_keepalive_packet(tick).to_vec())));
+                }
+            }
+            tick += 1000;
+        }
+    }
     ops
 }
 
